@@ -9,7 +9,7 @@ from vf.gen import tree as gtree
 from vf.model import mtext
 
 FS_CLASSES = ['content', 'size', 'delete', 'retype', 'stray', 'touch', 'stray-lookalike',
-              'stray-special', 'stray-manifest-name']
+              'stray-special', 'stray-manifest-name', 'hidden-listed']
 MAN_CLASSES = ['m-digest', 'm-size', 'm-drop', 'm-ghost', 'm-conflict',
                'm-disjoint-wrong', 'm-unsupported', 'm-chain', 'm-dup-ignore',
                'm-compatible-dup', 'm-dup-manifest-entry', 'm-manifest-dup-wrong',
@@ -126,6 +126,35 @@ def mutate(rng, root, layout, info, klass):
         else:
             st = os.stat(p)
             ops.append({'op': 'utime', 'p': f, 'mt': st.st_mtime + rng.choice([-50, 7, 500])})
+    elif klass == 'hidden-listed':
+        # a hidden file that a Manifest lists anyway is altered (content or size) or
+        # replaced by a FIFO; entries are verified wherever they point
+        cands = sorted(
+            f for f in info['listed']
+            if any(c.startswith('.') for c in f.split('/'))
+            and os.path.isfile(os.path.join(root, f))
+            and not os.path.islink(os.path.join(root, f))
+            and not any(mtext.comp_prefix(f, v) for v in info['via_link'])
+            and any(e['sums'] for m, e in _file_entries(layout, info, f)))
+        if not cands:
+            return None
+        f = rng.choice(cands)
+        rec['path'] = f
+        with open(os.path.join(root, f), 'rb') as fh:
+            data = fh.read()
+        how = rng.choice(['content', 'size', 'fifo'])
+        rec['how'] = how
+        if how == 'content':
+            spec = gtree.same_size_other(rng, common.spec_of(data))
+            if spec is None:
+                how = 'size'
+            else:
+                ops.append({'op': 'write', 'p': f, 'c': spec})
+        if how == 'size':
+            ops.append({'op': 'write', 'p': f, 'c': common.spec_of(data + b'!')})
+        elif how == 'fifo':
+            ops.append({'op': 'unlink', 'p': f})
+            ops.append({'op': 'mkfifo', 'p': f})
     elif klass in ('stray', 'stray-lookalike', 'stray-special', 'stray-manifest-name'):
         dirs = [d for d in info['dirs']
                 if os.path.isdir(os.path.join(root, d))
